@@ -6,6 +6,7 @@
 import SIM.Driver.Basic
 import SIM.Model.Impls
 import SIM.Model.Value
+import SIM.Driver.Guard
 import SIM.Model.Registry
 import SIM.Spec.Alias
 import SIM.Spec.Graph
@@ -116,7 +117,7 @@ def stdCase : P Verdict := do
   let fuel := reg.length + 64
   let mut k := 0
   for (v, bytes) in vals do
-    match Value.decodeVal reg fuel root bytes with
+    match decodeGuarded reg fuel root bytes with
     | some (v', []) =>
       if v' != v then errs := errs ++ [s!"C04: value {k}: decoding the bytes from the registry description alone yields a different structure / leaf values"]
     | some (_, _ :: _) => errs := errs ++ [s!"C04: value {k}: the registry-directed decoder does not consume the encoding exactly"]
@@ -171,7 +172,7 @@ def stdAllCase : P Verdict := do
     match roots[j]? with
     | none => errs := errs ++ ["value refers to no root"]
     | some (_, id) =>
-      match Value.decodeVal reg dfuel id bytes with
+      match decodeGuarded reg dfuel id bytes with
       | some (v', []) => if v' != v then errs := errs ++ [s!"C04: value of root {j}: decoding from the shared registry yields a different structure / leaf values"]
       | _ => errs := errs ++ [s!"C04: value of root {j}: the registry-directed decoder cannot read the encoding exactly from the shared registry"]
   if !errs.isEmpty then return .specfail (" ;; ".intercalate errs.eraseDups)
